@@ -43,6 +43,9 @@ FollowJudge(e) ==
                                 THEN {} ELSE {"elementInsideAnother"}))
           \cup (IF e.synced /\ onlyLit /\ ~SameResolution(T, [p \in PathsOf(e.dst) |-> At(e.dst, p)], reqs)
                 THEN {"C18.requestResolvesDifferentlyAfterTransfer"} ELSE {})
+          \* wildcard requests stand for their matches: every expansion (computed by the harness with the standard glob
+          \* against the directory its literal prefix resolves to) resolves in the transferred tree as in the source
+          \cup (IF e.synced THEN Pfx("C18", ExpansionClauses(T, [p \in PathsOf(e.dst) |-> At(e.dst, p)], e.exps, reqs)) ELSE {})
           \cup (IF e.syncFailed THEN {"C18.transferWithFollowPathsFailed"} ELSE {})
 
 Judge(e) ==
